@@ -30,8 +30,14 @@ RULE = ("(1) every recorded step of every calculation in integral/examples/*.jso
         "antiderivatives / Skolem constants: increments over three points must agree. (2) Hypothesis-generated "
         "expressions with generated parameters for Simplify, FullSimplify, Linearity, Substitution (monotone and "
         "not), SubstitutionInverse, IntegrationByParts, SplitRegion (inside/outside, singular/regular), "
-        "ExpandPolynomial, Equation (equal and unequal targets), ApplyIdentity, ElimInfInterval, LHopital, "
-        "DerivativeSimplify, SimplifyPower, ReduceLimit. (3) deriv vs mpmath.diff, normalize value-preserving and "
+        "ExpandPolynomial, Equation (equal and unequal targets, sums of integrals over equal / different intervals), "
+        "ApplyIdentity, ElimInfInterval, LHopital, DerivativeSimplify, SimplifyPower, ReduceLimit (at +oo, -oo and finite "
+        "points), DerivIntExchange (both directions, constant / parameter-dependent / infinite bounds, also under OnSubterm). "
+        "Integrals are generated with ascending and (one in four or five) with descending constant bounds, the form "
+        "SplitRegion returns for a point outside the interval; Substitution also with g that is monotone on the interval but "
+        "needs a non-principal branch of its inverse (even powers on negative intervals, sin/cos/tan away from 0); constants "
+        "under log/exp with irrational exponents; interval bounds of powers whose base and exponent both range over "
+        "intervals. (3) deriv vs mpmath.diff, normalize value-preserving and "
         "idempotent, Interval/get_bounds_for_expr enclosing sampled values, parse_expr(str(e)) == e. Oracle: "
         "independent Expr->mpmath evaluator (vlib/c19_lib.py). A violation needs both sides finite with small "
         "quadrature error, disagreement beyond 1e-6*(1+|v|) at 30 and 50 digits and with a second quadrature "
@@ -102,7 +108,9 @@ def _self_test():
     good = [("INT x:[0,1]. x^2", '1/3'), ("INT x:[0,oo]. exp(-x)*x^2", '2'), ("INT x:[-1,2]. abs(x)", '5/2'),
             ("SUM(n,0,oo,(-1)^n/(2*n+1))", 'pi/4'), ("LIM {t->oo}. INT x:[0,t]. exp(-x)", '1'),
             ("[x*log(x)-x]_x=0,1", '-1'), ("LIM {x->0}. sin(x)/x", '1'), ("D x. sin(x)^2", '2*sin(x)*cos(x)'),
-            ("INT x:[0,1]. 1/sqrt(1-x^2)", 'pi/2'), ("LIM {x -> oo}. (1+1/x)^x", 'exp(1)')]
+            ("INT x:[0,1]. 1/sqrt(1-x^2)", 'pi/2'), ("LIM {x -> oo}. (1+1/x)^x", 'exp(1)'),
+            ("INT x:[1,-2]. (x^2)^(1/2)", '-5/2'), ("D x. INT t:[0,x]. x*t", '3*x^2/2'), ("LIM {x -> -oo}. x*exp(x)", '0'),
+            ("INT x:[1,oo]. 1/x^(3/2)", '2')]
     for dps in (30, 50):
         with mp.workdps(dps):
             env = {'x': mpf(1) / 3}
@@ -111,7 +119,8 @@ def _self_test():
                 if not L.close(a, b, mpf(10) ** (-12)):
                     raise SelfTestError('evaluator: %s gives %s, expected %s' % (s, a, t))
             for s in ("INT x:[-1,1]. 1/x", "INT x:[0,oo]. sin(x)/x", "sqrt(-2)", "log(0)", "LIM {x->0}. 1/x",
-                      "INT x:[0,1]. 1/x", "LIM {x->oo}. sin(x)"):
+                      "INT x:[0,1]. 1/x", "LIM {x->oo}. sin(x)", "INT x:[1,oo]. log(1 + x^2)", "INT x:[0,oo]. 1",
+                      "INT x:[-oo,0]. x/(1 - x)"):
                 try:
                     v = ev.value(P(s), env)
                 except Inconc:
@@ -1115,7 +1124,8 @@ def feature_of(rname, e, params, after, env_fr=None, ctx=None, conds=None):
     if rname in ('DerivIntExchange', 'OnSubterm:DerivIntExchange'):
         for t in L.subterms(e):
             if t.ty == L.INTEGRAL and t.body.ty == L.DERIV:
-                return 'integral-of-derivative'
+                moving = str(t.body.var) in (L.free_vars(t.lower) | L.free_vars(t.upper))
+                return 'integral-of-derivative' + ('-with-bounds-depending-on-the-variable' if moving else '')
             if t.ty == L.DERIV and t.body.ty == L.INTEGRAL:
                 moving = str(t.var) in (L.free_vars(t.body.lower) | L.free_vars(t.body.upper))
                 return 'derivative-of-integral' + ('-with-bounds-depending-on-the-variable' if moving else '')
@@ -1772,7 +1782,8 @@ LIM_INF = ['(2 * x ^ 2 + 1) / (x ^ 2 + x)', 'x * exp(-x)', 'atan(x)', '(1 + 1 / 
            'x / sqrt(x ^ 2 + 1)', 'exp(-a * x)', 'x ^ 2 * exp(-x)', '(3 * x + 2) / (x ^ 2 + 1)', 'atan(x) / x',
            '-exp(-x) + 1', 'x ^ (-1/2)', '2 * atan(x) - 1 / x', '(x ^ 2 + 1) / (x + 1) - x', 'log(1 + 1 / x) * x',
            'exp(1 / x)', 'x ^ (-a)', '1 / (1 + exp(-x))', 'tanh(x)', 'cos(1 / x)', '(1 - 1 / x) ^ x', 'x * log(1 + 2 / x)',
-           'x ^ 2 / (x ^ 2 + 1) * atan(x)', '-x * exp(-x) - exp(-x) + 1', 'sqrt(x + 1) - sqrt(x)', 'log(x + 1) - log(x)']
+           'x ^ 2 / (x ^ 2 + 1) * atan(x)', '-x * exp(-x) - exp(-x) + 1', 'sqrt(x + 1) - sqrt(x)', 'log(x + 1) - log(x)',
+           '(1 + 1 / x) ^ (-x)', '(1 - 1 / x) ^ (-x)', '(1 + 2 / x) ^ (-x)', '(1/2) ^ x', '2 ^ (-x)', '(1 + 1 / x) ^ (2 * x)']
 SPECIAL_FORMS = ['exp(1/2 * log(x ^ 2))', 'exp(log(x ^ 4) / 4)', 'log(x ^ 2)', '(x ^ 2) ^ (1/2)', 'sqrt(x ^ 2)', 'abs(x) / x',
                  'x / abs(x)', 'sqrt(x) ^ 2', 'log(exp(x))', 'exp(log(x))', 'atan(tan(x))', 'sin(asin(x))', 'tan(atan(x))',
                  'asin(sin(x))', 'acos(cos(x))', 'sqrt((x - 1) ^ 2)', 'log(x ^ 2) - 2 * log(abs(x))', 'x ^ (1/3) ^ 3', '(x ^ 3) ^ (1/3)',
@@ -1984,34 +1995,39 @@ def strategies():
         return '2 * (%s)' % s
 
     @st.composite
+    def c_eq_ints(draw, cs=()):
+        # an integral against a sum / difference of integrals (over the same or over another interval, in the same or
+        # in another variable) and free-standing terms
+        f, g = draw(st.sampled_from(EQ_INT_F)), draw(st.sampled_from(EQ_INT_F))
+        b1 = draw(fbounds)
+        b2 = draw(st.one_of(st.just(b1), fbounds, fbounds))
+        op = draw(st.sampled_from(['+', '+', '-']))
+        v2 = draw(st.sampled_from(['x', 'x', 't']))
+        whole = 'INT x:[%s,%s]. (%s) %s (%s)' % (b1[0], b1[1], f, op, g)
+        form = draw(st.sampled_from(['ints', 'ints', 'ints', 'double', 'free-term']))
+        if form == 'double':
+            whole = 'INT x:[%s,%s]. 2 * (%s)' % (b1[0], b1[1], f)
+            g, op = f, '+'
+        second = 'INT %s:[%s,%s]. %s' % (v2, b2[0], b2[1], re.sub(r'\bx\b', v2, g))
+        if form == 'free-term':
+            c = draw(st.sampled_from(['a', '2', '1/2', 'pi']))
+            whole = 'INT x:[%s,%s]. (%s) %s %s' % (b1[0], b1[1], f, op, c)
+            second = c
+        parts = '(INT x:[%s,%s]. %s) %s (%s)' % (b1[0], b1[1], f, op, second)
+        old, new = (whole, parts) if draw(st.booleans()) else (parts, whole)
+        cs = [c for c in cs if not c.startswith('x ')]
+        if draw(st.integers(0, 3)) == 0:
+            return {'kind': 'rule', 'rule': 'Equation', 'e': '(%s) * a + 1' % old, 'params': {'old_expr': old, 'new_expr': new},
+                    'conds': cs, 'seeds': draw(seeds)}
+        return {'kind': 'rule', 'rule': 'Equation', 'e': old, 'params': {'new_expr': new}, 'conds': cs, 'seeds': draw(seeds)}
+    S['EquationIntegrals'] = c_eq_ints()
+
+    @st.composite
     def c_equation(draw):
         shape = draw(st.sampled_from(['pair', 'pair', 'pair-rev', 'random', 'perturb', 'trivial', 'int-sum']))
         cs = draw(conds)
         if shape == 'int-sum':
-            # an integral against a sum / difference of integrals (over the same or over another interval, in the same or
-            # in another variable) and free-standing terms
-            f, g = draw(st.sampled_from(EQ_INT_F)), draw(st.sampled_from(EQ_INT_F))
-            b1 = draw(fbounds)
-            b2 = draw(st.one_of(st.just(b1), fbounds))
-            op = draw(st.sampled_from(['+', '+', '-']))
-            v2 = draw(st.sampled_from(['x', 'x', 't']))
-            whole = 'INT x:[%s,%s]. (%s) %s (%s)' % (b1[0], b1[1], f, op, g)
-            form = draw(st.sampled_from(['ints', 'ints', 'ints', 'double', 'free-term']))
-            if form == 'double':
-                whole = 'INT x:[%s,%s]. 2 * (%s)' % (b1[0], b1[1], f)
-                g, op = f, '+'
-            second = 'INT %s:[%s,%s]. %s' % (v2, b2[0], b2[1], re.sub(r'\bx\b', v2, g))
-            if form == 'free-term':
-                c = draw(st.sampled_from(['a', '2', '1/2', 'pi']))
-                whole = 'INT x:[%s,%s]. (%s) %s %s' % (b1[0], b1[1], f, op, c)
-                second = c
-            parts = '(INT x:[%s,%s]. %s) %s (%s)' % (b1[0], b1[1], f, op, second)
-            old, new = (whole, parts) if draw(st.booleans()) else (parts, whole)
-            cs = [c for c in cs if not c.startswith('x ')]
-            if draw(st.integers(0, 3)) == 0:
-                return {'kind': 'rule', 'rule': 'Equation', 'e': '(%s) * a + 1' % old, 'params': {'old_expr': old, 'new_expr': new},
-                        'conds': cs, 'seeds': draw(seeds)}
-            return {'kind': 'rule', 'rule': 'Equation', 'e': old, 'params': {'new_expr': new}, 'conds': cs, 'seeds': draw(seeds)}
+            return draw(c_eq_ints(cs))
         if shape in ('pair', 'pair-rev'):
             a, b = draw(st.sampled_from(EQ_PAIRS))
             if shape == 'pair-rev':
@@ -2219,7 +2235,7 @@ def strategies():
     return S
 
 
-QUICK_N = {'DerivIntExchange': 80, 'Simplify': 120, 'FullSimplify': 120, 'normalize': 120, 'Linearity': 90, 'Substitution': 180, 'SubstitutionInverse': 120,
+QUICK_N = {'DerivIntExchange': 80, 'EquationIntegrals': 60, 'Simplify': 120, 'FullSimplify': 120, 'normalize': 120, 'Linearity': 90, 'Substitution': 180, 'SubstitutionInverse': 120,
            'IntegrationByParts': 120, 'SplitRegion': 100, 'ExpandPolynomial': 90, 'Equation': 200, 'ApplyIdentity': 150,
            'ElimInfInterval': 80, 'LHopital': 100, 'deriv': 120, 'DerivativeSimplify': 90, 'SimplifyPower': 240, 'ReduceLimit': 150,
            'bounds': 300, 'roundtrip': 600}
